@@ -677,4 +677,198 @@ theorem c21_whole_cycle (w : Whole) (h : w.cycle.stopped = false) (hq : apuWrite
 
 end apu
 
+/-! ## non-vacuity: ROM-built machines meet the hypotheses, and the conclusions are not trivial -/
+
+/-- a Boolean check at every cycle boundary of a run (evaluated once along the run, linear in `n`) -/
+def allRun (P : Whole → Bool) : Nat → Whole → Bool
+  | 0, _ => true
+  | n + 1, w => P w && allRun P n w.cycle
+
+theorem allRun_spec (P : Whole → Bool) (n : Nat) (w : Whole) (h : allRun P n w = true) :
+    ∀ j < n, P (Whole.run j w) = true := by
+  induction n generalizing w with
+  | zero => intro j hj; omega
+  | succ n ih =>
+    have h' : (P w && allRun P n w.cycle) = true := h
+    rw [Bool.and_eq_true] at h'
+    intro j hj
+    cases j with
+    | zero => exact h'.1
+    | succ j => exact ih w.cycle h'.2 j (by omega)
+
+/-! ### serial -/
+
+/-- `LD A,41; LDH (01),A; LD A,42; LDH (02),A; LDH (01),A`, then NOPs (32 KiB ROM-only image, code at 0100): writes
+    41 to SB, 42 to SC (which must not reach the writer), 42 to SB -/
+def serImg : Cart.Image :=
+  { len := 0x8000,
+    byte := fun i =>
+      if 0x100 ≤ i ∧ i < 0x10a then [0x3E, 0x41, 0xE0, 0x01, 0x3E, 0x42, 0xE0, 0x02, 0xE0, 0x01].getD (i - 0x100) 0
+      else 0 }
+
+/-- the machine `gameboy.New` builds from it with a serial writer … -/
+def serW : Whole := powerOn (.none { rom := Cart.pagesOf serImg, imgLen := 0x8000 }) true false
+/-- … and without one -/
+def serW0 : Whole := powerOn (.none { rom := Cart.pagesOf serImg, imgLen := 0x8000 }) false false
+
+example : Whole.construct serImg true false = some serW := rfl
+example : Whole.construct serImg false false = some serW0 := rfl
+
+/-- the CPU performs the three writes in cycles 5, 10 and 13; only the two to FF01 are in `sbOutput`, in order, and
+    they are what the writer has received (`c23_whole`); without a writer the log is empty -/
+example : (List.range 14).map (fun k => (cpuWrites (Whole.run k serW)).map fun p => (p.1.toNat, p.2.toNat)) =
+      [[], [], [], [], [(0xFF01, 0x41)], [], [], [], [], [(0xFF02, 0x42)], [], [], [(0xFF01, 0x42)], []] ∧
+    sbOutput 14 serW = [0x41, 0x42] ∧ (Whole.run 14 serW).b.m.serial.log = [0x41, 0x42] ∧
+    (Whole.run 14 serW0).b.m.serial.log = [] ∧ ((Whole.run 14 serW).b.read 0xFF01).1 = 0xff := by
+  decide +kernel
+
+example (n : Nat) : (Whole.run n serW).b.m.serial.log = sbOutput n serW :=
+  (c23_whole serImg true false serW rfl n).2.1 rfl
+
+/-! ### cartridge RAM -/
+
+/-- a 64 KiB MBC1+RAM image (type 03, 4 ROM banks, RAM size code 03 = 4 banks of 8 KiB) whose program enables
+    cartridge RAM and stores 5A at A010: `LD A,0A; LD (0000),A; LD A,5A; LD (A010),A` -/
+def ramImg : Cart.Image :=
+  { len := 0x10000,
+    byte := fun i =>
+      if i = 0x147 then 0x03 else if i = 0x148 then 0x01 else if i = 0x149 then 0x03
+      else if 0x100 ≤ i ∧ i < 0x10a then
+        [0x3E, 0x0A, 0xEA, 0x00, 0x00, 0x3E, 0x5A, 0xEA, 0x10, 0xA0].getD (i - 0x100) 0
+      else i / 0x4000 }
+
+def ramW : Whole := (Whole.construct ramImg false false).getD demo
+
+private theorem ramW_constructed : Whole.construct ramImg false false = some ramW := by
+  have h : (Whole.construct ramImg false false).isSome = true := by decide +kernel
+  unfold ramW
+  cases hc : Whole.construct ramImg false false with
+  | none => rw [hc] at h; cases h
+  | some w => rfl
+
+/-- the hypotheses of `c09_whole` hold for it (MBC1, 4 RAM banks) … -/
+example : Tetro.C08.ctrlOf (ramImg.byte 0x0147) = some .mbc1 ∧ ramBanks ramImg = 4 ∧
+    (Whole.run 13 ramW).cpu.regs.exited = false ∧ Tetro.C09.InWindow 0xA010 :=
+  ⟨by decide, by decide, by decide +kernel, ⟨by decide, by decide⟩⟩
+
+/-- … its cartridge is the `Mbc1.new` state of `c09_refines_mbc1` (`whole_cart_built`) … -/
+example : ∃ m0, Cart.Mbc1.new (Cart.pagesOf ramImg) 4 Cart.freshRam 4 = some m0 ∧ ramW.b.m.cart = .mbc1 m0 := by
+  obtain ⟨kind, hk, hb, _⟩ := whole_cart_built ramImg false false ramW ramW_constructed
+  have : kind = .mbc1 := by
+    have e : Tetro.C08.ctrlOf (ramImg.byte 0x0147) = some .mbc1 := by decide
+    rw [e] at hk
+    injection hk with hk
+    exact hk.symm
+  subst this
+  exact hb
+
+/-- … and the conclusion is not trivial: before the enable write the window reads FF, after the store (cycle 12)
+    the induced history makes the abstract RAM hold 5A at bank 0, offset 10, and that is what the CPU reads -/
+example : Spec.Cart.ramRead .mbc1 4 (Tetro.CartSim.hist (cartTrace 5 ramW)) 0xA010 = 0xff ∧
+    Spec.Cart.ramRead .mbc1 4 (Tetro.CartSim.hist (cartTrace 12 ramW)) 0xA010 = 0x5A ∧
+    ((Whole.run 5 ramW).b.read 0xA010).1 = 0xff ∧ ((Whole.run 12 ramW).b.read 0xA010).1 = 0x5A := by
+  decide +kernel
+
+example (n : Nat) (hx : (Whole.run n ramW).cpu.regs.exited = false) (a : Nat) (ha : Tetro.C09.InWindow a) :
+    ((Whole.run n ramW).b.read a).1 = Spec.Cart.ramRead .mbc1 4 (Tetro.CartSim.hist (cartTrace n ramW)) a := by
+  rw [c09_whole_ram ramImg false false ramW ramW_constructed .mbc1 (by decide) (by intro h; cases h) n hx
+    (Or.inr (Or.inl rfl)) a ha]
+  rfl
+
+/-! ### OAM DMA -/
+
+/-- `LD A,11; LDH (40),A` switches the LCD off, `LD A,01; LDH (46),A` starts a transfer of page 01 – the program's
+    own bytes at 0100–019F – then NOPs -/
+def dmaImg : Cart.Image :=
+  { len := 0x8000,
+    byte := fun i =>
+      if 0x100 ≤ i ∧ i < 0x108 then [0x3E, 0x11, 0xE0, 0x40, 0x3E, 0x01, 0xE0, 0x46].getD (i - 0x100) 0 else 0 }
+
+def dmaW : Whole := powerOn (.none { rom := Cart.pagesOf dmaImg, imgLen := 0x8000 }) false false
+
+private theorem dmaW_constructed : Whole.construct dmaImg false false = some dmaW := rfl
+
+/-- the per-cycle hypotheses of `c16_whole`, as one Boolean -/
+private def dmaCheck (w : Whole) : Bool :=
+  decide (NoOamWrite (cpuWrites w)) && (!w.b.m.ppu.enabled || w.b.m.ppu.mode != 2) &&
+  decide (NoSwitchOn w.b.m.ppu.enabled (cpuWrites w))
+
+private theorem dmaW_checks : allRun dmaCheck 162 (Whole.run 9 dmaW) = true ∧
+    allRun (fun w => decide (NoDmaStart (cpuWrites w))) 161 (Whole.run 10 dmaW) = true := by
+  constructor <;> decide +kernel
+
+/-- the FF46 write happens in cycle 10 (the cycle that starts in `Whole.run 9 dmaW`) … -/
+example : (cpuWrites (Whole.run 9 dmaW)).map (fun p => (p.1.toNat, p.2.toNat)) = [(0xFF46, 0x01)] := by
+  decide +kernel
+
+/-- … all hypotheses of `c16_whole` hold from there (LCD off, no further FF46 write, no OAM write, 162 cycles
+    survived), so its conclusion holds for this machine: -/
+example :
+    (Whole.run 162 (Whole.run 9 dmaW)).b.m.oam.dmaRunning = false ∧
+    ∀ k (hk : k < 160), (Whole.run 162 (Whole.run 9 dmaW)).b.m.oam.oam[k] =
+      BitVec.ofNat 8 ((afterCpu (Whole.run (k + 1) (Whole.run 9 dmaW))).2.read (Spec.Dma.sourceAddr 1 k)).1 := by
+  have hc := allRun_spec _ _ _ dmaW_checks.1
+  have hd := allRun_spec _ _ _ dmaW_checks.2
+  have hchk : ∀ j ≤ 161, dmaCheck (Whole.run j (Whole.run 9 dmaW)) = true := fun j hj => hc j (by omega)
+  refine (c16_whole dmaImg false false dmaW dmaW_constructed 9 1 (by decide) (by decide +kernel)
+    (by decide +kernel) ?_ ?_ ?_ ?_).2
+  · intro j h1 h2
+    obtain ⟨i, rfl⟩ : ∃ i, j = i + 1 := ⟨j - 1, by omega⟩
+    have := hd i (by omega)
+    rw [decide_eq_true_eq] at this
+    exact this
+  · intro j hj
+    have := hchk j hj
+    unfold dmaCheck at this
+    simp only [Bool.and_eq_true, decide_eq_true_eq] at this
+    exact this.1.1
+  · intro j hj
+    have := hchk j hj
+    unfold dmaCheck at this
+    simp only [Bool.and_eq_true, Bool.or_eq_true, Bool.not_eq_true', bne_iff_ne] at this
+    exact this.1.2
+  · intro j hj
+    have := hchk j hj
+    unfold dmaCheck at this
+    simp only [Bool.and_eq_true, decide_eq_true_eq] at this
+    exact this.2
+
+/-- … and it is not trivial: the engine is busy up to cycle boundary 161 after the write's cycle, idle at 162, and
+    OAM then holds the program's own first bytes -/
+example : (Whole.run 161 (Whole.run 9 dmaW)).b.m.oam.dmaRunning = true ∧
+    (Whole.run 162 (Whole.run 9 dmaW)).b.m.oam.dmaRunning = false ∧
+    (List.range 9).map (fun k => ((Whole.run 162 (Whole.run 9 dmaW)).b.m.oam.oam[k]?.getD 0).toNat) =
+      [0x3E, 0x11, 0xE0, 0x40, 0x3E, 0x01, 0xE0, 0x46, 0x00] ∧
+    ((Whole.run 100 (Whole.run 9 dmaW)).b.read 0xFE00).1 = 0xff := by
+  decide +kernel
+
+/-! ### APU -/
+
+/-- `LD A,F0; LDH (17),A; LD A,87; LDH (19),A`: NR22 = F0 (DAC on), NR24 = 87 triggers channel 2 (f = 700h) -/
+def sndImg : Cart.Image :=
+  { len := 0x8000,
+    byte := fun i =>
+      if 0x100 ≤ i ∧ i < 0x108 then [0x3E, 0xF0, 0xE0, 0x17, 0x3E, 0x87, 0xE0, 0x19].getD (i - 0x100) 0 else 0 }
+
+def sndW : Whole := powerOn (.none { rom := Cart.pagesOf sndImg, imgLen := 0x8000 }) false true
+
+example : Whole.construct sndImg false true = some sndW := rfl
+
+/-- the hypotheses of `c19_whole_on_only_by_trigger` (channel 2) hold in the cycle that starts in
+    `Whole.run 9 sndW`: the status bit is 0 before it and 1 after it – and the trigger write is in the ghost log of
+    exactly this cycle -/
+example : (Whole.run 9 sndW).cycle.stopped = false ∧ (Whole.run 9 sndW).b.apu.ch2.enabled = false ∧
+    (Whole.run 9 sndW).cycle.b.apu.ch2.enabled = true ∧
+    (cpuWrites (Whole.run 9 sndW)).map (fun p => (p.1.toNat, p.2.toNat)) = [(0xFF19, 0x87)] ∧
+    Apu.trigOf (0x87 % 256) = true := by
+  decide +kernel
+
+/-- the hypotheses of `c21_whole_cycle` hold in the next cycle: no sound-register write, channel 2 in a legal state
+    with f = 700h, nothing triggered -/
+example : (Whole.run 10 sndW).cycle.stopped = false ∧ apuWrites (cpuWrites (Whole.run 10 sndW)) = [] ∧
+    (Whole.run 10 sndW).b.apu.ch2.triggered = false ∧ (Whole.run 10 sndW).b.apu.ch4.triggered = false := by
+  decide +kernel
+example : Tetro.C21.SqOk (Whole.run 10 sndW).b.apu.ch2 0x700 := by
+  refine ⟨?_, ?_, ?_, ?_⟩ <;> decide +kernel
+
 end Tetro.WholeTraces2
